@@ -165,6 +165,7 @@ type Sim struct {
 	stopWhy  string
 
 	pilotCalls []string
+	held       []*call
 	stmtFailHit bool
 	crashInc    string // armed: incarnation inside a switchover attempt
 	crashCount  int
@@ -202,11 +203,21 @@ func (s *Sim) submit(c *call) sqlResult {
 		select {}
 	}
 	c.res = make(chan sqlResult, 1)
+	// stack identity by function name and line (program counters are not stable across
+	// processes when the binary is position independent)
 	var pcs [32]uintptr
 	n := runtime.Callers(2, pcs[:])
 	h := uint64(1469598103934665603)
-	for _, pc := range pcs[:n] {
-		h = (h ^ uint64(pc)) * 1099511628211
+	frames := runtime.CallersFrames(pcs[:n])
+	for {
+		fr, more := frames.Next()
+		for i := 0; i < len(fr.Function); i++ {
+			h = (h ^ uint64(fr.Function[i])) * 1099511628211
+		}
+		h = (h ^ uint64(fr.Line)) * 1099511628211
+		if !more {
+			break
+		}
 	}
 	c.stk = h
 	s.pmu.Lock()
@@ -234,13 +245,15 @@ var deadIncs sync.Map
 
 // trace records one line of the deterministic event log (hashed always, written when verbose).
 func (s *Sim) trace(format string, a ...any) {
-	line := fmt.Sprintf("%d %s ", s.evSeq, fmtDur(s.now())) + fmt.Sprintf(format, a...)
+	line := fmtDur(s.now()) + " " + fmt.Sprintf(format, a...)
 	if i := strings.Index(line, `"pid":`); i >= 0 {
 		line = pidRe.ReplaceAllString(line, `"pid":0`)
 	}
+	// the controller's event counter is shown but not hashed: which of two identical requests of
+	// one process is answered "first" at an instant is a scheduler accident worth one count
 	s.traceHash = mix64(s.traceHash ^ hashStr(line))
 	if s.traceLog != nil {
-		fmt.Fprintln(s.traceLog, line)
+		fmt.Fprintf(s.traceLog, "%d %s\n", s.evSeq, line)
 	}
 }
 
@@ -325,23 +338,33 @@ func (s *Sim) run(until time.Duration) {
 		stepCounter.Add(1)
 		synctest.Wait()
 		progressed := false
-		// 1. newly registered calls
+		// 1. newly registered calls and bytes written by zk clients are only *collected* here.
+		// Dials to a reachable, running server are answered at once (see immediateDial); the
+		// goroutine then issues its statement at the same instant. Identities, latencies and the
+		// order of frames on a connection are assigned only when the whole instant is quiescent
+		// (no new call or frame, no event due now), so that the Go scheduler's choices among
+		// goroutines that are runnable at the same simulated instant (who got the pool's idle
+		// connection, whose identical request was answered first) cannot influence them.
 		s.pmu.Lock()
 		cs := s.newCalls
 		s.newCalls = nil
 		s.pmu.Unlock()
 		if len(cs) > 0 {
-			s.assignKeys(cs)
+			s.drainHooks()
 			for _, c := range cs {
-				s.scheduleCall(c)
+				if it := s.mon.iters[c.src]; it != nil && it.open {
+					c.it = it // state-handler invocation that issued the call
+				}
+				if !s.immediateDial(c) {
+					s.held = append(s.held, c)
+				}
 			}
-			progressed = true
+			continue
 		}
-		// 2. bytes written by zk clients
-		if s.net.pump() {
-			progressed = true
+		if s.net.collect() {
+			continue
 		}
-		// 3. due events, one at a time
+		// 2. events due now, one at a time
 		if len(s.heap) > 0 && s.heap[0].at <= s.now() {
 			e := heap.Pop(&s.heap).(*event)
 			s.evSeq++
@@ -351,6 +374,19 @@ func (s *Sim) run(until time.Duration) {
 			synctest.Wait()
 			s.mon.afterEvent()
 			continue
+		}
+		// 3. the instant is quiescent: give the collected calls and frames their identities
+		if len(s.held) > 0 {
+			cs = s.held
+			s.held = nil
+			s.assignKeys(cs)
+			for _, c := range cs {
+				s.scheduleCall(c)
+			}
+			progressed = true
+		}
+		if s.net.flush() {
+			progressed = true
 		}
 		if progressed {
 			continue
